@@ -26,12 +26,18 @@ ALGORITHM differs in shape from the spec (each ∀-quantified, no size bound):
 * withdrawals:       the sweep loop with early reads and breaks = spec's loop  (`withdrawals_eq`)
 * attester slashing: `IsSlashableAttestationData` = the spec predicate         (`slashable_eq`)
 
-Operations that rest on the correspondence (Go = `S` along generated chains, modes `c01`/`c03`) ONLY:
-header, randao, eth1 data, the operation-count rule, proposer slashing, the rest of attester slashing
-(slash_validator's balance arithmetic), attestations of every fork (committee look-up through the
-`EpochsContext`, flags, proposer reward), deposits (pubkey-cache look-up, Merkle branch), voluntary
-exits (checks), BLS-to-execution changes, sync aggregate, execution payload, the withdrawals' balance
-updates and cursor update, block signature and state root.
+Round 2 added whole-operation refinements `M = S` (accept/reject AND post-state; `M` = `Zrnt/Beacon/Impl/BlockM.lean`,
+the model column of modes `c01`/`c03`): `header_eq`, `randao_eq`, `eth1vote_eq`, `exit_eq` (end to end), `deposit_eq`,
+`blsChange_eq`, `payload_eq` (three forks), `withdrawalsApply_eq` and `syncAggregate_eq` (the last two against pure cores
+of `S` that the monadic `S` is compared with on every evaluation), the frame lemma `proposer_frame`, and
+`WF_preserved_block_partial`.
+
+STILL resting on the correspondence Go = `M` = `S` only (no refinement theorem): `process_attestation` of every fork
+(committee look-up, pending attestation / participation flags, proposer reward), `slash_validator` and the proposer /
+attester slashings as whole operations (their pieces ZigZagJoin, slashable predicate, indexed check, exit scan are proved),
+the composition of the operation theorems into `process_block` (each operation theorem takes the context facts for the
+CURRENT state; `proposer_frame` is the lemma that carries them across operations, the other context fields need the
+analogous frames), block signature and state root.
 Each `M` piece is additionally tied to the Go function it models by mode `c01pieces`
 (ZigZagJoin, IsSlashableAttestationData, GetExpectedWithdrawals, InitiateValidatorExit,
 ValidateIndexedAttestationIndicesSet are driven directly with generated inputs).
